@@ -565,6 +565,9 @@ func execServe(f []string) Result {
 	if want, ok := inboundSpecTimeline(stream, withHandler); ok {
 		if got := strings.Join(timeline, " "); got != want {
 			r.Props = append(r.Props, viol("C04", "timeline", "inbound flow on %x: observed [%s], MQTT flow rules give [%s]", stream, got, want))
+			if withHandler && strings.Count(got, "H(") < strings.Count(want, "H(") {
+				r.Props = append(r.Props, viol("C17", "inbound-dropped", "a message the broker sent on this connection never reached the registered handler: observed [%s], expected [%s]", got, want))
+			}
 			if handOvers(got) != handOvers(want) {
 				r.Props = append(r.Props, viol("C05", "inbound-delivered-fields", "messages handed over on %x: [%s], sent by the broker: [%s]", stream, handOvers(got), handOvers(want)))
 			}
